@@ -176,6 +176,12 @@ pub struct SegmentedLog {
 }
 
 impl SegmentedLog {
+    /// Override the maximum segment size (verification hook).
+    #[cfg(feature = "verif-hooks")]
+    pub fn verif_set_max_segment_size(&mut self, n: u64) {
+        self.max_segment_size = n;
+    }
+
     /// Append a record to the log and return its ID.
     ///
     /// After this function returned, the data is guaranteed to be persisted.
@@ -224,7 +230,13 @@ impl SegmentedLog {
         if root_dir_fsync {
             // To uphold the guarantees provided by this function we should fsync the directory
             // after a new segment file is created.
+            #[cfg(feature = "verif-hooks")]
+            let vt = crate::verif::before(crate::verif::IoOp::Fsync {
+                fd: std::os::fd::AsRawFd::as_raw_fd(&*self.root_dir_fd),
+            })?;
             self.root_dir_fd.sync_all()?;
+            #[cfg(feature = "verif-hooks")]
+            crate::verif::after(vt, true);
         }
 
         Ok(record_id)
@@ -237,10 +249,14 @@ impl SegmentedLog {
         let new_segment_id = self.gen_segment_id();
         let filename = segment_filename::format(&self.filename_prefix, new_segment_id);
         let path = self.root_dir_path.join(filename);
+        #[cfg(feature = "verif-hooks")]
+        let vt = crate::verif::before(crate::verif::IoOp::Create { path: &path })?;
         let file = OpenOptions::new()
             .create_new(true)
             .append(true)
             .open(&path)?;
+        #[cfg(feature = "verif-hooks")]
+        crate::verif::after(vt, true);
         let new_segment = Segment {
             id: new_segment_id,
             min,
@@ -309,7 +325,13 @@ impl SegmentedLog {
 
             // Remove the segment file from the file system.
             let filename = segment_filename::format(&self.filename_prefix, oldest_segment.id);
+            #[cfg(feature = "verif-hooks")]
+            let vt = crate::verif::before(crate::verif::IoOp::Unlink {
+                path: &self.root_dir_path.join(&filename),
+            })?;
             fs::remove_file(self.root_dir_path.join(filename))?;
+            #[cfg(feature = "verif-hooks")]
+            crate::verif::after(vt, true);
 
             // Remove the segment from the in-memory list preserving the order.
             self.segments.remove(0);
@@ -360,10 +382,22 @@ impl SegmentedLog {
         while self.segments.len() > seg_index + 1 {
             let filename =
                 segment_filename::format(&self.filename_prefix, self.segments.last().unwrap().id);
+            #[cfg(feature = "verif-hooks")]
+            let vt = crate::verif::before(crate::verif::IoOp::Unlink {
+                path: &self.root_dir_path.join(&filename),
+            })?;
             fs::remove_file(self.root_dir_path.join(filename))?;
+            #[cfg(feature = "verif-hooks")]
+            crate::verif::after(vt, true);
             self.segments.pop();
         }
+        #[cfg(feature = "verif-hooks")]
+        let vt = crate::verif::before(crate::verif::IoOp::Fsync {
+            fd: std::os::fd::AsRawFd::as_raw_fd(&*self.root_dir_fd),
+        })?;
         self.root_dir_fd.sync_data()?;
+        #[cfg(feature = "verif-hooks")]
+        crate::verif::after(vt, true);
 
         if let Some(head_segment_writer) = self.head_segment_writer.take().take() {
             let file = head_segment_writer.into_inner();
@@ -390,7 +424,13 @@ impl SegmentedLog {
         let _ = self.head_segment_writer.take();
 
         for segment in &self.segments {
+            #[cfg(feature = "verif-hooks")]
+            let vt = crate::verif::before(crate::verif::IoOp::Unlink {
+                path: &segment.path,
+            })?;
             fs::remove_file(&segment.path)?;
+            #[cfg(feature = "verif-hooks")]
+            crate::verif::after(vt, true);
         }
         self.segments.clear();
         Ok(())
@@ -591,7 +631,13 @@ impl Recovery {
         }
 
         for segment in nonlive_segments {
+            #[cfg(feature = "verif-hooks")]
+            let vt = crate::verif::before(crate::verif::IoOp::Unlink {
+                path: &segment.path,
+            })?;
             fs::remove_file(segment.path)?;
+            #[cfg(feature = "verif-hooks")]
+            crate::verif::after(vt, true);
         }
         Ok(live_segments)
     }
@@ -633,8 +679,21 @@ fn truncate_head_segment(
     };
 
     let mut file = OpenOptions::new().append(true).write(true).open(path)?;
+    #[cfg(feature = "verif-hooks")]
+    let vt = crate::verif::before(crate::verif::IoOp::SetLen {
+        fd: std::os::fd::AsRawFd::as_raw_fd(&file),
+        len: end,
+    })?;
     file.set_len(end)?;
+    #[cfg(feature = "verif-hooks")]
+    crate::verif::after(vt, true);
+    #[cfg(feature = "verif-hooks")]
+    let vt = crate::verif::before(crate::verif::IoOp::Fsync {
+        fd: std::os::fd::AsRawFd::as_raw_fd(&file),
+    })?;
     file.sync_data()?;
+    #[cfg(feature = "verif-hooks")]
+    crate::verif::after(vt, true);
     file.seek(SeekFrom::Start(end))?;
 
     Ok(SegmentFileWriter::new(file, end))
